@@ -768,7 +768,19 @@ def c19_real_idle(wk):
         s.cleanup()
 
 
-def c19_real_requests(wk, loglevel, big):
+ROOT_LOGCONFIG = """
+logconfig_dict = {
+    "version": 1, "disable_existing_loggers": False,
+    "formatters": {"plain": {"format": "%%(message)s"}},
+    "handlers": {"all": {"class": "logging.FileHandler", "filename": %(path)r, "formatter": "plain"}},
+    "root": {"level": "INFO", "handlers": ["all"]},
+    "loggers": {"gunicorn.access": {"level": "INFO", "handlers": [], "propagate": True},
+                "gunicorn.error": {"level": "INFO", "handlers": [], "propagate": True}},
+}
+"""
+
+
+def c19_real_requests(wk, loglevel, big, logcfg=None):
     """real server with an access log file: a few plain requests and (big) a file of several megabytes sent through the
     class's own sendfile path to a client that reads slowly (partial sends); every request must leave exactly one record
     whose byte count is what the client received -- whatever the error log's level is"""
@@ -780,7 +792,12 @@ def c19_real_requests(wk, loglevel, big):
     out = []
     try:
         logp = os.path.join(s.dir, "access.log")
-        s.cmd[-1:-1] = ["--access-logfile", logp]
+        if logcfg == "root":
+            # the usual "one handler on the root logger for everything" dictConfig: gunicorn.access has no handler of
+            # its own and propagates
+            s.rewrite_config(ROOT_LOGCONFIG % {"path": logp})
+        else:
+            s.cmd[-1:-1] = ["--access-logfile", logp]
         i = s.cmd.index("--log-level")
         s.cmd[i + 1] = loglevel
         s.start()
@@ -825,7 +842,7 @@ def c19_real_requests(wk, loglevel, big):
                 except (ValueError, IndexError):
                     pass
             ev = {"kind": "completed", "nrec": len(mine), "status": status, "bytes": nbytes, "wstatus": st, "wbody": nbody, "maxlines": 1}
-            out.append((ev, {"kind": wk, "fmt": "%(s)s|%(B)s|%(U)s|%(q)s", "what": "real-%s-loglevel=%s" % ("bigfile" if key == "3" else "plain", loglevel),
+            out.append((ev, {"kind": wk, "fmt": "%(s)s|%(B)s|%(U)s|%(q)s", "what": "real-%s-loglevel=%s%s" % ("bigfile" if key == "3" else "plain", loglevel, ",handler-on-root-logger" if logcfg else ""),
                              "records": mine[:3], "wire": "", "escaped": None, "ncalls": 1, "request": "GET n=" + key}))
         return out
     finally:
@@ -927,9 +944,10 @@ def c19(ctx):
     for ev, info in _parallel(plan, lambda a, i: c19_real_idle(a)):
         traces.append({"ev": [ev]})
         metas.append(info)
-    plan2 = [("eventlet", "debug", True), ("gthread", "error", True), ("sync", "warning", False)] if ctx.quick else \
-        [(wk, lv, True) for wk in ("sync", "gthread", "gevent", "eventlet") for lv in ("debug", "info", "warning", "critical")]
-    for res in _parallel(plan2, lambda a, i: c19_real_requests(a[0], a[1], a[2])):
+    plan2 = [("eventlet", "debug", True), ("gthread", "error", True), ("sync", "warning", False), ("gthread", "info", False, "root")] if ctx.quick else \
+        [(wk, lv, True) for wk in ("sync", "gthread", "gevent", "eventlet") for lv in ("debug", "info", "warning", "critical")] + \
+        [(wk, "info", False, "root") for wk in ("sync", "gthread", "gevent", "eventlet")]
+    for res in _parallel(plan2, lambda a, i: c19_real_requests(a[0], a[1], a[2], a[3] if len(a) > 3 else None)):
         for ev, info in res:
             traces.append({"ev": [ev]})
             metas.append(info)
